@@ -421,7 +421,9 @@ var checkKDE = ev.Register("kde", func(c *Case) ev.Outcome {
 			return ev.Fail("total mass on the support [%v,%v] is %.15g", lo, hi, mass)
 		}
 		// Bounds
-		bl, bh := k.Bounds()
+		// Bounds searches by expanding a bracket and bisecting: it must come back
+		var bl, bh float64
+		ev.Watchdog("KDE.Bounds", func() { bl, bh = k.Bounds() })
 		if math.IsNaN(bl) || math.IsNaN(bh) || math.IsInf(bl, 0) || math.IsInf(bh, 0) || !(bl <= bh) {
 			return ev.Fail("Bounds = %v,%v", bl, bh)
 		}
@@ -439,7 +441,9 @@ var checkKDE = ev.Register("kde", func(c *Case) ev.Outcome {
 	if c.Kernel == kDelta && !deltaTouching {
 		// Bounds of a step distribution: the mass of the closed interval is the weight of the
 		// sample values in it (the images of the reflection lie outside the support)
-		bl, bh := k.Bounds()
+		// Bounds searches by expanding a bracket and bisecting: it must come back
+		var bl, bh float64
+		ev.Watchdog("KDE.Bounds", func() { bl, bh = k.Bounds() })
 		if math.IsNaN(bl) || math.IsNaN(bh) || math.IsInf(bl, 0) || math.IsInf(bh, 0) || !(bl <= bh) {
 			return ev.Fail("Bounds = %v,%v", bl, bh)
 		}
